@@ -13,6 +13,8 @@
     rmsd                                                                    -> `ssd`, `rmsd`
     fit_fragment (the repaired code, fixes/C20_1_*, C20_2_*)                -> `fitFragment`
     fit_fragment (as found in the snapshot; kept for the witness theorems)  -> `fitFragmentOld`
+    fit_fragment on the caller's objects (rows as mutable cells, lists of references; deepcopy / append allocate,
+      rotmol writes in place), histories of in-place changes and fits   -> `Heap`, `fitFragmentH`, `Step`, `runH`; spec `specH`
   Specification (code independent): `ssdDirect` (Σ‖R xᵢ − yᵢ‖² for an arbitrary 3×3 matrix applied the ordinary
   way), `IsProper` (RᵀR = 1, RRᵀ = 1, det R = 1), `quad` (qᵀNq), `sumSq`, `pivots` (LDLᵀ pivots of μ·1 − N: all positive
   iff μ is above every eigenvalue — Sylvester), `placeSpec` (R(p − p̄) + t̄).
@@ -424,6 +426,84 @@ def fitFragmentOld (isZero : K → Bool) (sqrt : K → K) (fit : List (P3 K) →
       | none => none
       | some rms => some (rotated, rms)
   | _, _ => none
+
+/-! ### Model: the caller's objects — rows as mutable cells, lists as lists of references
+
+  A Python list of atoms is a list of references to rows `[x, y, z]`. Two lists can hold the same row
+  (`source_atoms = [fragment_atoms[0], fragment_atoms[1], fragment_atoms[10]]` in the library's own example), the caller can
+  assign to the elements of a row between two fits, and `rotmol` itself assigns to the elements of the rows it is
+  given. `Heap` makes this explicit: `cell a` = the numbers in the row at address `a`, addresses below `next` are in
+  use. The functions below follow `fit_fragment` statement by statement (what is allocated, what is written in place);
+  the theorems `fitFragmentH_*` (ShelxProps) then show that, whatever rows the three argument lists share, the result
+  is `fitFragment` of the numbers the rows hold at the call and that no row of the caller is written. -/
+
+structure Heap (K : Type) where
+  cell : Nat → P3 K
+  next : Nat
+
+/-- the numbers a list of rows holds now -/
+def Heap.read (h : Heap K) (l : List Nat) : List (P3 K) := l.map h.cell
+
+/-- new rows holding `ps` (every `result.append([…])`, every row made by `copy.deepcopy`): the heap after, and the new list -/
+def Heap.alloc (h : Heap K) (ps : List (P3 K)) : Heap K × List Nat :=
+  (⟨fun a => if h.next ≤ a then (match ps[a - h.next]? with | some p => p | none => h.cell a) else h.cell a, h.next + ps.length⟩,
+   List.range' h.next ps.length)
+
+/-- `row[0] = …; row[1] = …; row[2] = …` on the row at `a` -/
+def Heap.write (h : Heap K) (a : Nat) (p : P3 K) : Heap K := ⟨fun a' => if a' = a then p else h.cell a', h.next⟩
+
+/-- `rotmol(frag_atoms, rotmat)`: IN PLACE, row after row (a row that occurs twice in the list is turned twice); the
+    list returned is the list given -/
+def Heap.rotmol (h : Heap K) (l : List Nat) (u : M3 K) : Heap K :=
+  l.foldl (fun h a => h.write a (rotPoint u (h.cell a))) h
+
+/-- `fit_fragment(fragment_atoms, source_atoms, target_atoms)` on the caller's objects: heap after the call, the returned
+    list, the returned RMSD. (`copy.deepcopy` is modelled as one new row per entry; CPython's memo would keep a row that
+    occurs twice in the argument shared in the copy too — the copies are only read, so the numbers read are the same.) -/
+def fitFragmentH (isZero : K → Bool) (sqrt : K → K) (fit : List (P3 K) → List (P3 K) → Option (M3 K))
+    (h : Heap K) (frag src tgt : List Nat) : Option (Heap K × List Nat × K) :=
+  let a1 := h.alloc (h.read src)                        -- p_source = copy.deepcopy(source_atoms)
+  let a2 := a1.1.alloc (a1.1.read tgt)                  -- q_target = copy.deepcopy(target_atoms)
+  match centroid isZero (a2.1.read a1.2), centroid isZero (a2.1.read a2.2) with
+  | some pc, some qc =>
+    let a3 := a2.1.alloc (minusVect (a2.1.read a1.2) pc)   -- p_source = matrix_minus_vect(p_source, pcentroid)
+    let a4 := a3.1.alloc (minusVect (a3.1.read a2.2) qc)   -- q_target = matrix_minus_vect(q_target, qcentroid)
+    match fit (a4.1.read a3.2) (a4.1.read a4.2) with       -- qtrfit(p_source, q_target, 30): reads only
+    | none => none
+    | some u =>
+      let a5 := a4.1.alloc (minusVect (a4.1.read src) pc)  -- source_atoms = matrix_minus_vect(source_atoms, pcentroid)  (not read again)
+      let a6 := a5.1.alloc (minusVect (a5.1.read frag) pc) -- matrix_minus_vect(fragment_atoms, pcentroid)
+      let h6 := a6.1.rotmol a6.2 u                         -- rotmol(…, U): in place on the new rows
+      let a7 := h6.alloc (plusVect (h6.read a6.2) qc)      -- matrix_plus_vect(rotated_fragment, qcentroid)
+      let h8 := a7.1.rotmol a3.2 u                         -- rotmol(p_source, U): in place on the centred copy
+      match rmsd sqrt (h8.read a4.2) (h8.read a3.2) with
+      | none => none
+      | some rms => some (h8, a7.2, rms)
+  | _, _ => none
+
+/-- what a caller does between and with the fits -/
+inductive Step (K : Type) where
+  | write (a : Nat) (p : P3 K)                 -- assigns new numbers to one of its rows
+  | fit (frag src tgt : List Nat)              -- fit_fragment on three of its lists
+deriving Repr
+
+/-- a history on one interpreter: per `fit` step what came back (`none` = an exception; nothing of the caller's is
+    written before it is raised — see `fitFragmentH_frame` —, so the history goes on from the same heap) -/
+def runH (isZero : K → Bool) (sqrt : K → K) (fit : List (P3 K) → List (P3 K) → Option (M3 K)) :
+    Heap K → List (Step K) → List (Option (List (P3 K) × K))
+  | _, [] => []
+  | h, .write a p :: t => runH isZero sqrt fit (h.write a p) t
+  | h, .fit f s g :: t =>
+    match fitFragmentH isZero sqrt fit h f s g with
+    | none => none :: runH isZero sqrt fit h t
+    | some r => some (r.1.read r.2.1, r.2.2) :: runH isZero sqrt fit r.1 t
+
+/-- Specification of a history: every fit is `fitFragment` of the numbers the caller's rows hold at that moment -/
+def specH (isZero : K → Bool) (sqrt : K → K) (fit : List (P3 K) → List (P3 K) → Option (M3 K)) :
+    (Nat → P3 K) → List (Step K) → List (Option (List (P3 K) × K))
+  | _, [] => []
+  | c, .write a p :: t => specH isZero sqrt fit (fun a' => if a' = a then p else c a') t
+  | c, .fit f s g :: t => fitFragment isZero sqrt fit (f.map c) (s.map c) (g.map c) :: specH isZero sqrt fit c t
 
 /-! ### Specification: placement, certificate -/
 
